@@ -306,7 +306,16 @@ impl Bed {
             bed.dhcp_lease = *src.pick(&[10u32, 2, 4, 60, 600, 86400]);
             bed.dhcp_t1t2 = if src.chance(1, 3) {
                 let l = bed.dhcp_lease;
-                Some((l / 4, l / 2))
+                // mostly ordered T1 < T2 < lease; half of the pairs are inverted, equal or at the lease
+                // (the client must fall back to its defaults; poll_at has to stay a usable schedule
+                // all the same). Decided from bits of the case seed: no further draw.
+                match (seed >> 48) & 7 {
+                    0 => Some((l / 2, l / 4)),
+                    1 => Some((l / 2, l / 2)),
+                    2 => Some((l * 3 / 4, l / 2)),
+                    3 => Some((l / 4, l)),
+                    _ => Some((l / 4, l / 2)),
+                }
             } else {
                 None
             };
@@ -1580,6 +1589,14 @@ impl Bed {
         } else {
             DhcpMessageType::Ack
         };
+        // (DhcpRepr::emit does not write T1/T2 from its renew/rebind fields: they travel as additional options)
+        let t1b = self.dhcp_t1t2.map(|t| t.0.to_be_bytes());
+        let t2b = self.dhcp_t1t2.map(|t| t.1.to_be_bytes());
+        let mut extra: Vec<smoltcp::wire::DhcpOption> = vec![];
+        if let (Some(a), Some(b)) = (&t1b, &t2b) {
+            extra.push(smoltcp::wire::DhcpOption { kind: 58, data: &a[..] });
+            extra.push(smoltcp::wire::DhcpOption { kind: 59, data: &b[..] });
+        }
         let repr = DhcpRepr {
             message_type: reply_type,
             transaction_id: xid,
@@ -1601,7 +1618,7 @@ impl Bed {
             lease_duration: Some(self.dhcp_lease),
             renew_duration: self.dhcp_t1t2.map(|t| t.0),
             rebind_duration: self.dhcp_t1t2.map(|t| t.1),
-            additional_options: &[],
+            additional_options: &extra,
         };
         let mut buf = vec![0u8; repr.buffer_len()];
         {
